@@ -220,16 +220,19 @@ def tracking_predecessor(prefix):
         frames.append(FrameGroundTruth(t, str(k), [g.obj], transforms=pose.transforms))
     idx = {"A": 0, "B": 1, "C": 2}
 
-    def run(seq):
+    def run(seq, keep=None):
         mgr, cfg = _manager(frames, task="tracking")
         filt = _filters(cfg, 150.0)
         res = None
         for name in seq:
             e, g, t = objs[name]
             res = mgr.add_frame_result(t, mgr.ground_truth_frames[idx[name]], [e.obj], *filt)
+            if keep is not None:
+                keep.append(res)
         return res, mgr
 
-    ref, _ = run(["A", "B"])
+    per_frame = []
+    ref, ref_mgr = run(["A", "B"], keep=per_frame)
     got, mgr = run(list(prefix) + ["A", "B"])
     a, b = _tracking_scores(ref), _tracking_scores(got)
     parts = {"same_tracking_scores_after_prefix": _close_all(b, a),
@@ -245,6 +248,18 @@ def tracking_predecessor(prefix):
     parts["tp_oracle"] = L.Iff(c.tp == 1, L.Or(L.And(same_track, tp_a), tp_b))
     parts["id_switch_iff_track_changed"] = L.Iff(c.id_switch == 1, L.And(tp_a, tp_b, not same_track))
     parts["fp_is_the_rest"] = L.close(c.tp + c.fp, 1, 1e-9)
+    # scene-level tracking score = CLEAR of the pooled frames [A, B]: the first frame is scored on its own, every later
+    # frame against its predecessor - i.e. the sums of the per-frame values; a one-frame scene reproduces its frame
+    cA = per_frame[0].metrics_score.tracking_scores[0].clears[0]
+    sc = ref_mgr.get_scene_result().tracking_scores[0].clears[0]
+    parts["scene_tracking_counts_are_frame_sums"] = L.And(L.close(sc.tp, cA.tp + c.tp, 1e-9), L.close(sc.fp, cA.fp + c.fp, 1e-9),
+                                                          sc.id_switch == cA.id_switch + c.id_switch,
+                                                          sc.objects_results_num == 2)
+    one_mgr = run(["A"])[1]
+    s1 = one_mgr.get_scene_result().tracking_scores[0].clears[0]
+    parts["one_frame_scene_reproduces_frame_tracking_score"] = L.And(
+        L.close(s1.tp, cA.tp, 1e-9), L.close(s1.fp, cA.fp, 1e-9), s1.id_switch == cA.id_switch, s1.objects_results_num == 1,
+        L.Iff(s1.tp == 1, tp_a))
     return Out(parts=parts, obs={"ref": a, "after_prefix": b})
 
 
